@@ -71,6 +71,14 @@ func parseTimeZone(tz string) (*time.Location, error) {
 		return nil, fmt.Errorf("invalid timezone")
 	}
 
+	// the other four characters must be digits. Atoi alone
+	// would also accept a second sign, e.g. "+-100".
+	for i := 1; i < len(tz); i++ {
+		if tz[i] < '0' || tz[i] > '9' {
+			return nil, fmt.Errorf("invalid timezone")
+		}
+	}
+
 	// take the first two digits as "HH"
 	hours, err := strconv.Atoi(tz[1:3])
 	if err != nil {
